@@ -134,6 +134,7 @@ func generateMsgIDShim(bdir string) (string, error) {
 		return "", fmt.Errorf("parsing %s: %v", dir, err)
 	}
 	global, field := false, false
+	respKind := "" // how AdapterProxy keeps its pending-reply table: map (sync.Map) | array (of sync.Map) | unknown
 	for _, pkg := range pkgs {
 		for _, f := range pkg.Files {
 			for _, d := range f.Decls {
@@ -150,6 +151,25 @@ func generateMsgIDShim(bdir string) (string, error) {
 							}
 						}
 					case *ast.TypeSpec:
+						if st, ok := t.Type.(*ast.StructType); ok && t.Name.Name == "AdapterProxy" {
+							for _, fl := range st.Fields.List {
+								for _, n := range fl.Names {
+									if n.Name != "resp" {
+										continue
+									}
+									switch ft := fl.Type.(type) {
+									case *ast.SelectorExpr:
+										if id, ok := ft.X.(*ast.Ident); ok && id.Name == "sync" && ft.Sel.Name == "Map" {
+											respKind = "map"
+										}
+									case *ast.ArrayType:
+										if se, ok := ft.Elt.(*ast.SelectorExpr); ok && se.Sel.Name == "Map" {
+											respKind = "array"
+										}
+									}
+								}
+							}
+						}
 						if st, ok := t.Type.(*ast.StructType); ok && t.Name.Name == "ServantProxy" {
 							for _, fl := range st.Fields.List {
 								for _, n := range fl.Names {
@@ -171,7 +191,16 @@ func generateMsgIDShim(bdir string) (string, error) {
 	case field:
 		body = "\tfor _, p := range proxies {\n\t\tatomic.StoreInt32(&p.msgID, v)\n\t}\n\treturn len(proxies) > 0\n"
 	}
+	pending := "\treturn 0\n"
+	switch respKind {
+	case "map":
+		pending = "\tn := 0\n\ta.resp.Range(func(k, v interface{}) bool { n++; return true })\n\treturn n\n"
+	case "array":
+		pending = "\tn := 0\n\tfor i := range a.resp {\n\t\ta.resp[i].Range(func(k, v interface{}) bool { n++; return true })\n\t}\n\treturn n\n"
+	}
+	pendingSrc := "\n// verifPending counts the entries of the adapter's pending-reply table (0 when the tree keeps it in a\n// form this accessor does not know).\nfunc verifPending(a *AdapterProxy) int {\n" + pending + "}\n"
 	src := "package tars\n\nimport \"sync/atomic\"\n\nvar _ = atomic.StoreInt32\n\n// VerifSetMsgID presets the request id counter (process-wide, or of the given proxies when the\n// tree keeps one per proxy); false when the tree has no counter this accessor knows how to reach.\nfunc VerifSetMsgID(v int32, proxies ...*ServantProxy) bool {\n" + body + "}\n"
+	src += pendingSrc
 	out := filepath.Join(bdir, "zz_verif_msgid.go")
 	if err := os.WriteFile(out, []byte(src), 0644); err != nil {
 		return "", err
